@@ -18,6 +18,7 @@ func init() {
 		"(2) BOUND: every slice expression over a local byte slice with a non-constant upper bound is dominated by a comparison of that bound with the length of that same slice (the TLS record-completeness test compares the record length with the bytes after the record header, not with the whole buffer); " +
 		"(3) LOCATOR: a value returned by Locator.At/Range/Slice is used only after its error was tested; (4) DEADLINE: sniffing read deadlines are cleared on every path (shared with C05); ARMED: every read of a deadline-bounded detection window is dominated by the arm of that deadline (never armed under a first-time flag while the disarm runs after every read); (5) TIMEOUT/REPLAY: every sniffer is constructed with the configured sniffing timeout; bytes enter the replay buffer only through the reviewed writers. " +
 		"(6) QUICPARAM: the per-version Initial parameters (salt, key/iv/hp labels, client initial secret label, long-header type of an Initial packet) equal the RFC 9001 / RFC 9369 values at every site that uses them. " +
+		"(7) NEEDMORE: the QUIC sniffer sets needMore only on paths where the ClientHello parser did not return the definitive ErrNotFound. " +
 		"Not decided, stated plainly: absence of panics / out-of-bounds for every byte string (the compiler leaves ~40 unproven bounds checks here; discharging them needs a relational numeric domain), that the extracted name is the one carried, recognition under all chunkings."})
 }
 
@@ -31,6 +32,7 @@ func runC06(c *Ctx) {
 	c.R.Floor("ARMED", armedReads(c, "ARMED", us), 1)
 	c06Replay(c)
 	c06QuicParams(c)
+	c06NeedMore(c)
 }
 
 func c06Restore(c *Ctx) {
